@@ -196,7 +196,7 @@ func runSetting(mc *modbus.ModbusClient, name string, r *Rng) {
 
 func init() {
 	checks["C08"] = func(tier string, seed uint64, res *Result) error {
-		res.Rule = "pairs (thorough: also 4-goroutine mixes) of public client methods run concurrently on one real client (tcp, rtuovertcp) over a scripted device, built with -race: every written frame must be one well-formed request, no request may be written while a reply is unread (one outstanding request), every read result must consist of the caller's own tag bytes, and the race detector must stay silent; quick: every method x {SetEncoding, SetUnitId, Close, Open} + one pair per core function on both framings + sampled method pairs; thorough: all pairs; distinct = (scheme, method A, method B)"
+		res.Rule = "pairs (thorough: also 4-goroutine mixes) of public client methods run concurrently on one real client (tcp, rtuovertcp) over a scripted device, built with -race: every written frame must be one well-formed request, no request may be written while a reply is unread (one outstanding request), every read result must consist of the caller's own tag bytes, and the race detector must stay silent; a result kept by one goroutine must survive another goroutine's exchange (held-result), a setting changed while an exchange is in flight must wait for it (setting-in-flight); quick: every method x {SetEncoding, SetUnitId, Close, Open} + one pair per core function on both framings + sampled method pairs; thorough: all pairs; distinct = (scheme, method A, method B)"
 		r := NewRng(seed)
 		type pair struct{ a, b string }
 		var pairs []pair
@@ -264,6 +264,59 @@ func init() {
 						Expect: "sixteen bytes a1 (the reply to A's own request)", Note: "the data a caller received turned into the reply to another caller's request"})
 				}
 				mc.Close()
+			}
+		}
+		// a setting changed while an exchange is in flight must wait for it: the request is on the
+		// wire, its reply held back; SetEncoding / SetUnitId issued meanwhile must not take effect
+		// before the call has validated its reply (the echo is compared in the configured byte
+		// order, the reply's unit id with the configured one) — so the call must succeed
+		for _, kind := range []string{"tcp", "rtuovertcp"} {
+			for _, setting := range []string{"SetEncoding", "SetUnitId"} {
+				for _, call := range []string{"WriteRegister", "ReadRegisters"} {
+					mc, conn, err := newScriptedClient(kind)
+					if err != nil {
+						res.Note(err.Error())
+						continue
+					}
+					dev := &concDevice{conn: conn, rtu: isRTUKind(kind), delay: 40 * time.Millisecond}
+					conn.BlockFor = 500 * time.Millisecond
+					dev.attach()
+					var out string
+					done := make(chan struct{})
+					go func() {
+						if call == "WriteRegister" {
+							out = (&Op{Name: "WriteRegister", Addr: 0x0040, U16: 0x1234}).Exec(mc)
+						} else {
+							out = (&Op{Name: "ReadRegisters", Addr: 0x0040, Qty: 2}).Exec(mc)
+						}
+						close(done)
+					}()
+					for w := 0; w < 2000 && atomic.LoadInt32(&dev.frames) == 0; w++ {
+						time.Sleep(50 * time.Microsecond)
+					}
+					setDone := make(chan struct{})
+					go func() {
+						if setting == "SetEncoding" {
+							mc.SetEncoding(modbus.LITTLE_ENDIAN, modbus.LOW_WORD_FIRST)
+						} else {
+							mc.SetUnitId(0x55)
+						}
+						close(setDone)
+					}()
+					<-done
+					select {
+					case <-setDone:
+					case <-time.After(2 * time.Second):
+					}
+					line := fmt.Sprintf("%s: %s in flight (reply held back 40 ms), %s called meanwhile", kind, call, setting)
+					ok := strings.HasPrefix(out, "ok:")
+					res.Eval("setting-in-flight/"+kind+"/"+call+"/"+setting, ok, line+" => "+shorten(out, 60))
+					if !ok {
+						res.Add(Finding{Kind: "property", Check: "setting-in-flight", Line: line, Impl: out, Expect: "ok (the setting waits for the exchange)",
+							Note: "a setting changed by another goroutine took effect in the middle of an exchange"})
+					}
+					mc.Close()
+				}
 			}
 		}
 		// one pair per core function (both calls go through the same lock region), always with
